@@ -80,8 +80,8 @@ def build(stream, p):
     tags = ["k=%d" % k]
     if stream == "lmap":
         def run():
-            m = dsw.accessor_to_latter_map(arr)
-            back = dsw.latter_map_to_accessor(m, observed_length=k)
+            m = dsw.accessor_to_latter_map(gen.acc_array(rows, reuse=len(rows) % 3 == 1))
+            back = dsw.latter_map_to_accessor(gen.lmap_dict(rows, reuse=True) if k % 2 else m, observed_length=k)
             return m, back
         call = enc_call(46, gen.enc_acc(rows), k)
         impl = lambda: guard(run, lambda r: [gen.enc_lmap({int(a): [int(x) for x in b] for a, b in sorted(r[0].items())}),
@@ -112,8 +112,10 @@ def build(stream, p):
         v, d = p["v"], p["d"]
 
         def run():
-            a = dsw.obtain_leaf_vertices(v, d, accessor=arr)
-            b = dsw.obtain_leaf_vertices(v, d, latter_map=lmap_of(rows))
+            # long-lived argument objects, refilled in place: answers must follow the current content
+            reuse = (v + d) % 2 == 0
+            a = dsw.obtain_leaf_vertices(v, d, accessor=gen.acc_array(rows, reuse=reuse))
+            b = dsw.obtain_leaf_vertices(v, d, latter_map=gen.lmap_dict(rows, reuse=reuse))
             return a, b
         call = enc_call(47, gen.enc_acc(rows), v, d)
         impl = lambda: guard(run, lambda r: [[int(x) for x in r[0]], [int(x) for x in r[1]]])
